@@ -6,7 +6,9 @@
 
     no write / truncate / create through a final name (declared exception: a
     follow-mode restore output opened in place), and an unlink of a final LTX
-    name only after a superseding file has been published durably.
+    name only after a superseding file has been published durably.  "The
+    directory" is a directory OBJECT (Model.v): an fsync through a descriptor
+    opened before the directory was removed and re-created does not count.
 
     The monitor runs the file-system model of [Model.v] on the trace and
     evaluates a guard before each call; its extra (ghost) state is the set of
@@ -68,6 +70,13 @@ Definition R_ACK_NOT_DURABLE : N := 5. (* ack of a name whose directory entry / 
 Definition R_UNLINK_UNSUPERSEDED : N := 6.
 Definition R_ACK_NOT_FINAL : N := 7.
 Definition R_OPEN_FINAL : N := 8.      (* open for writing of a strict final name *)
+Definition R_DIR_REPLACED_LIVE : N := 9. (* mkdir/rmdir at a path whose directory still holds a known final name *)
+
+(** a directory object may only be removed / replaced once none of the final
+    names the monitor knows (acknowledged, ever acknowledged, published LTX
+    names) is still bound in it *)
+Definition dir_dead (m : mstate) (d : N) : bool :=
+  forallb (fun q => negb (in_dir d q && is_some (svol (mfs m) q))) (mack m ++ mever m ++ mknown m).
 
 Definition guard_write (m : mstate) (fd : N) : N :=
   match fd_ino (mfs m) fd with
@@ -111,6 +120,8 @@ Definition guard (m : mstate) (c : syscall) : N :=
           end
       | _ => 0
       end
+  | Mkdir d => if dir_dead m d then 0 else R_DIR_REPLACED_LIVE
+  | Rmdir d => if dir_dead m d then 0 else R_DIR_REPLACED_LIVE
   | Ack p =>
       if negb (finalb p) then R_ACK_NOT_FINAL
       else if present_allb s p &&
@@ -171,7 +182,7 @@ Definition add_file (m : mstate) (p : path) (size : N) : mstate :=
       let ino := snext s in
       let c := [W 0 size] in
       mkM (mkFs (updN (sino s) ino (mkInode c c false)) (updP (svol s) p (Some ino))
-                (updP (sdur s) p (Some ino)) (spend s) (sfd s) (ino + 1))
+                (updP (sdur s) p (Some ino)) (spend s) (sfd s) (ino + 1) (sgen s))
           (if strictb p then (fun x => if N.eqb x ino then true else mpub m x) else mpub m)
           (mack m) (mever m)
           (if is_ltx p then p :: mknown m else mknown m)
